@@ -22,7 +22,7 @@ Index — clause of the property statement ↦ theorem(s):
 * "a block bitmap built from an integer (64-bit blocks up to 2^32*1024-1025, 32-bit blocks over all uint32) iterates back
    to precisely that integer" ............................. `bigu32_roundtrip`, `bigu32_rejects_out_of_range`, `u32tip_roundtrip`
 * "accepts further integers exactly when they belong to its block"
-      `bigu32_accepts_iff_same_block`, `u32tip_accepts_iff_same_block`
+      `bigu32_accepts_iff_same_block`, `u32tip_accepts_iff_same_block`, `bigu32_set_history` (any sequence of SetI64 calls)
 * "forward iteration is ascending while reverse iteration is descending"
       `block_iteration_exact`, `block_forward_ascending`, `block_reverse_descending`, `tip_forward_ascending`,
       `tip_reverse_descending`, `newTip_start_le`
@@ -165,6 +165,41 @@ theorem bigu32_accepts_iff_same_block (blk : Block) (v : BitVec 64) :
 
 -- non-vacuity of the range hypothesis, at both ends
 example : (0 : Int) ≤ (4398046510079#64 : BitVec 64).toInt ∧ (4398046510079#64 : BitVec 64).toInt < 4398046510080 := by decide
+
+/-- a whole history of `SetI64` calls on one block, of any length and order (so also when the block passes through every
+    size 1…1024): the start never changes and the members afterwards are the old ones plus exactly the offsets of the
+    accepted integers — no member is ever dropped or invented -/
+theorem bigu32_set_history (vs : List (BitVec 64)) (blk : Block) :
+    (vs.foldl (fun b v => (bigSetI64 b v).1) blk).start = blk.start ∧
+    ∀ j, mem1024 (vs.foldl (fun b v => (bigSetI64 b v).1) blk).bits j =
+      (mem1024 blk.bits j || vs.any (fun v => decide ((bigSetI64 blk v).2 = .ok ∧ v.toInt.toNat % 1024 = j))) := by
+  induction vs generalizing blk with
+  | nil => simp
+  | cons v vs ih =>
+    have hstep := bigu32_accepts_iff_same_block blk v
+    have hstart : (bigSetI64 blk v).1.start = blk.start := by
+      by_cases hok : (bigSetI64 blk v).2 = .ok
+      · exact (hstep.2.2 hok).1
+      · rw [hstep.2.1 hok]
+    -- acceptance depends on the start only, which the step preserves
+    have hacc : ∀ u, ((bigSetI64 (bigSetI64 blk v).1 u).2 = .ok) ↔ ((bigSetI64 blk u).2 = .ok) := by
+      intro u
+      rw [(bigu32_accepts_iff_same_block _ u).1, (bigu32_accepts_iff_same_block blk u).1, hstart]
+    obtain ⟨ih1, ih2⟩ := ih (bigSetI64 blk v).1
+    refine ⟨by rw [List.foldl_cons, ih1, hstart], fun j => ?_⟩
+    rw [List.foldl_cons, ih2 j, List.any_cons]
+    have hany : vs.any (fun u => decide ((bigSetI64 (bigSetI64 blk v).1 u).2 = .ok ∧ u.toInt.toNat % 1024 = j)) =
+        vs.any (fun u => decide ((bigSetI64 blk u).2 = .ok ∧ u.toInt.toNat % 1024 = j)) := by
+      congr 1
+      funext u
+      apply decide_eq_decide.2
+      rw [hacc u]
+    rw [hany]
+    by_cases hok : (bigSetI64 blk v).2 = .ok
+    · rw [(hstep.2.2 hok).2 j]
+      simp [hok, Bool.or_assoc]
+    · rw [hstep.2.1 hok]
+      simp [hok]
 
 /-! ### U32BitTip -/
 
